@@ -3,6 +3,8 @@
 
 package gf2p16
 
+import "github.com/klauspost/cpuid/v2"
+
 // This file is compiled only with the "verif" build tag. It exports
 // the individual dispatch paths of the bulk kernels so that an
 // external verification harness can drive all of them on one machine.
@@ -26,9 +28,7 @@ const (
 )
 
 // VerifCPUHasSSSE3 returns whether the CPU supports SSSE3.
-func VerifCPUHasSSSE3() bool { return hasSSSE3Detected }
-
-var hasSSSE3Detected = hasSSSE3
+func VerifCPUHasSSSE3() bool { return cpuid.CPU.Supports(cpuid.SSSE3) }
 
 // VerifSetSSSE3 forces the dispatch flag used by MulByteSliceLE and
 // MulAndAddByteSliceLE, and returns the previous value.
